@@ -93,6 +93,16 @@ func TxSummary(n *Names, h int64, g GenTx, res *abci.ExecTxResult) trace.M {
 		m["code"] = int64(1)
 	}
 	if !g.Eth {
+		// Cosmos lane: class by result code (coverage only)
+		switch {
+		case res.Code == 0:
+		case res.Code == 11 && strings.Contains(res.Log, "block gas"):
+			m["cls"] = "cosmos-blockgas"
+		case res.Code == 11:
+			m["cls"] = "cosmos-own-gas-c11"
+		default:
+			m["cls"] = fmt.Sprintf("cosmos-fail-c%d", res.Code)
+		}
 		return m
 	}
 	tok := n.Tx(g.Hash)
